@@ -44,3 +44,27 @@ func VH_C09_MachoTransformRepeatable() {
 	vhAssert(lastName == "exec" && bytes.Equal(last, data), "binary-member-is-the-whole-file")
 	vhReach("sent") // vh:require sent
 }
+
+// the same through the goroutine-and-pipe wrapper the client actually calls
+// (the goroutine is run when the reader would block: one schedule)
+func VH_C09_MachoGetReaderRepeatable() {
+	vhMaxLen(8192)
+	vhLoopBound(1100)
+	data := vhBytes("file", 3)
+	p := vhFSPath("a.out")
+	vhFSPut(p, data)
+	f, err := os.Open(p)
+	if err != nil {
+		return
+	}
+	t := &transformer{f: f}
+	r1, err := t.GetReader()
+	vhAssert(err == nil, "first-reader")
+	first, err := io.ReadAll(r1)
+	vhAssert(err == nil, "first-upload-complete")
+	r2, err := t.GetReader()
+	vhAssert(err == nil, "second-reader")
+	second, err := io.ReadAll(r2)
+	vhAssert(err == nil && bytes.Equal(first, second) && len(first) > 0, "attempts-upload-identical-streams")
+	vhReach("sent") // vh:require sent
+}
